@@ -3,7 +3,7 @@ EXTENDS ClusterOps
 VARIABLES sel, steps
 \* scenarios start from a formed cluster (the harness forms it with explicit start/join operations first)
 GenInit == /\ st = [x \in Nodes |-> 1] /\ comp = [x \in Nodes |-> Nodes] /\ know = [x \in Nodes |-> [m \in Nodes |-> 1]]
-           /\ part = {} /\ ops = 0 /\ last = [a |-> "init"] /\ MonInit /\ passive = {}
+           /\ part = {} /\ ops = 0 /\ last = [a |-> "init"] /\ MonInit /\ passive = {} /\ unheard = {}
            /\ sel = 0 /\ steps = 0
 Pick == sel = 0 /\ sel' \in 1..8 /\ UNCHANGED <<vars, steps>>
 Do ==
